@@ -9,6 +9,7 @@
 //           i  co_await AwaitInline()    s  co_await AwaitSticky()    o  co_await AwaitOn(executor)
 // M attaches / consumes the futures in order and then gives up its own unit with Done()
 //   own = 1 (default) | 0: M holds no unit of its own (only with a single a / c source)
+//   batch = 1: src is aa or cc and M attaches / consumes both futures with ONE call (monitors only)
 // A released waiter reports "<who>:<count>:<done flags of the sources>:<Ready() of the attached futures>".
 #include "common.hpp"
 
@@ -195,6 +196,21 @@ VRT_SCENARIO(wg, "WaitGroup / OneShotEvent: sources (Done, attached / consumed f
   std::vector<vh::Gate> gates(n);
   if (!bare) {
     ctx.Spawn("M", [&] {
+      if (ctx.Param("batch", "0") == "1") {
+        // ONE call for two futures (the implicit Add covers the whole batch): legal on a count of zero
+        if (sh.src[0] == 'a') {
+          vrt::Api api{"Attach"};
+          group.Attach(sh.fs[0], sh.fs[1]);
+        } else {
+          vrt::Api api{"Consume"};
+          group.Consume(std::move(sh.fs[0]), std::move(sh.fs[1]));
+        }
+        if (own) {
+          vrt::Api api{"Done"};
+          group.Done();
+        }
+        return;
+      }
       for (std::size_t i = 0; i != n; ++i) {
         if (sh.src[i] == 'a') {
           vrt::Api api{"Attach"};
